@@ -93,6 +93,42 @@ def build(corpus_seed, random_types):
     raise Harness("fmtsim: too many rounds of corpus types failing to compile: %s" % sorted(failing))
 
 
+KFW = os.path.join(CRATE, "kfwitness")
+
+
+def kf_witnesses():
+    """Compiles the witness inputs of the open compile-time findings against /repo's working tree.
+    Returns {witness id: first rustc error text | None (compiles)}."""
+    import re
+    shutil.copyfile("/repo/Cargo.lock", os.path.join(KFW, "Cargo.lock"))
+    rc, out = sh(["cargo", "build", "--offline", "--target-dir", os.path.join(BUILD, "kfwitness")], cwd=KFW)
+    markers = []
+    for n, line in enumerate(open(os.path.join(KFW, "src", "lib.rs")), 1):
+        m = re.match(r"\s*// @witness (\S+) (\w+)", line)
+        if m:
+            markers.append((n, m.group(1), m.group(2)))
+    res = {w: None for _, w, side in markers if side == "dm"}
+    if rc == 0:
+        return res
+    seen_any = False
+    for b in re.split(r"\n(?=error)", out):
+        if not b.startswith("error") or b.startswith("error: could not compile") or b.startswith("error: aborting"):
+            continue
+        locs = re.findall(r"--> src/lib\.rs:(\d+):", b)
+        prev = [m for m in markers if locs and m[0] <= int(locs[0])]
+        if not prev or prev[-1][2] != "dm":
+            raise Harness("kfwitness does not build for a reason outside derive_more's derives:\n" + out[-4000:])
+        seen_any = True
+        w = prev[-1][1]
+        if res[w] is None:
+            res[w] = b.strip()[:1500]
+        else:
+            res[w] += "\n" + b.strip()[:600]
+    if not seen_any:
+        raise Harness("kfwitness does not build:\n" + out[-4000:])
+    return res
+
+
 def corpus_src(idx):
     import re
     txt = open(GEN_CORPUS).read()
@@ -132,6 +168,15 @@ def do_replay(path):
     v = json.load(open(path))
     cs = v.get("corpus_seed", 1)
     failing = build(cs, v.get("corpus_random_types", 140))
+    if v.get("kind") == "kf-witness":
+        err = kf_witnesses().get(v["witness"])
+        listed = [w for f in known_findings("C06") for w in f.get("witnesses", []) if w["id"] == v["witness"]]
+        if err is not None and not (listed and listed[0]["rustc_error_contains"] in err):
+            print(err)
+            print("VIOLATION property=C06 replay=%s" % path)
+            return 1
+        print("witness %s: %s" % (v["witness"], "compiles" if err is None else "fails as the recorded finding says"))
+        return 0
     if v.get("kind") == "does-not-compile":
         if v["type_idx"] in failing:
             print(failing[v["type_idx"]])
@@ -231,6 +276,34 @@ def do_check(tier, seed, t0):
                        "reference": kf_seen["minimised"]["reference"]}, open(path, "w"), indent=1, ensure_ascii=False)
             viol_lines.append("VIOLATION property=C06 replay=%s" % path)
 
+    # findings that show at compile time: their witness inputs, compiled against the working tree
+    wit = kf_witnesses()
+    claimed = set()
+    for kid, f in listed.items():
+        failing_w = []
+        for w in f.get("witnesses", []):
+            claimed.add(w["id"])
+            err = wit.get(w["id"])
+            if err is None:
+                continue
+            if w["rustc_error_contains"] in err:
+                failing_w.append(w["id"])
+            else:
+                path = os.path.join(REPLAYS, "C06-%d-witness-%s.json" % (seed, w["id"]))
+                json.dump({"property": "C06", "engine": "fmtsim", "kind": "kf-witness", "seed": seed, "witness": w["id"],
+                           "what": "witness input of %s fails to compile in another way than the recorded finding" % kid, "rustc_error": err},
+                          open(path, "w"), indent=1, ensure_ascii=False)
+                viol_lines.append("VIOLATION property=C06 replay=%s" % path)
+        if failing_w:
+            kf_lines.append("KNOWN-FINDING: property=C06 %s: derive_more::Debug does not compile on %d witness input(s) std's derive accepts (%s): %s" % (
+                kid, len(failing_w), ", ".join(failing_w), f["identified_by"][:300]))
+    for w, err in wit.items():
+        if err is not None and w not in claimed:
+            path = os.path.join(REPLAYS, "C06-%d-witness-%s.json" % (seed, w))
+            json.dump({"property": "C06", "engine": "fmtsim", "kind": "kf-witness", "seed": seed, "witness": w,
+                       "what": "witness input fails to compile and no open finding lists it", "rustc_error": err}, open(path, "w"), indent=1, ensure_ascii=False)
+            viol_lines.append("VIOLATION property=C06 replay=%s" % path)
+
     wall = time.time() - t0
     n = totals["cases"]
     enum = totals["fault_point_enumeration"]
@@ -256,6 +329,7 @@ def do_check(tier, seed, t0):
         "reach_probes": totals["probes"],
         "layers": totals["layers"],
         "verdicts": totals["verdicts"],
+        "known_finding_witnesses": {w: ("compiles" if e is None else e.split("\n")[0][:160]) for w, e in sorted(wit.items())},
         "determinism_selfcheck": "each batch re-run in a fresh process with 5 instead of 16 workers; digests over (index, both sink contents, both results, verdict) equal",
         "components": {
             "real": ["derive_more::__private::{debug_tuple, DebugTuple} and the private Padded adapter (/repo/src/fmt.rs)",
@@ -271,6 +345,7 @@ def do_check(tier, seed, t0):
         "sink contents under a *field* failure are compared too, which presumes streaming output (derive_more is no_std/no-alloc, so it cannot buffer)",
         "type vocabulary = systematic shapes (all skip subsets up to 3 fields) + seeded random corpus; shapes outside it are not explored",
         "known finding KF1 is excused only when derive_more's output equals the reference adjusted by its defect model byte for byte",
+        "known finding KF2 (compile time) is excused only on its listed witness inputs and only while rustc's error is the recorded one; any corpus type that does not compile is a violation",
     ]
     write_evidence("C06", tier, seed, "exploration", coverage, wall, len(viol_lines), assumptions)
     for l in kf_lines:
